@@ -131,6 +131,28 @@ func checkC15(p *Program, r *Reporter) {
 			}
 		}
 	}
+	// write mode regenerates: the metadata file is read only when write mode is off
+	r.Rule("E5-WRITEMODE", "in write mode existing metadata files are not read back (they are regenerated from the segments)", 1)
+	nLoad := 0
+	for _, s := range callsTo(p, lfj) {
+		nLoad++
+		okW := false
+		for _, cd := range effectiveCDeps(s.Block(), true) {
+			v := cd.V
+			pos := cd.Pos
+			if u, ok := v.(*ssa.UnOp); ok && u.Op == token.NOT {
+				v, pos = u.X, !pos
+			}
+			if f, ok := loadedField(v); ok && f == "app.assetMgr.writeRepData" && !pos {
+				okW = true
+			}
+		}
+		r.Decide(okW, "E5-WRITEMODE", shortFn(s.Parent()), "call:loadFromJSON", p.pos(s.Pos()), "the cache is read only under !writeRepData",
+			"an existing metadata file is read back even in write mode: a stale or damaged file is never regenerated, and servers started from it keep serving the old segment table", nil)
+	}
+	if nLoad == 0 {
+		r.Violate("E5-WRITEMODE", shortFn(lfj), "call:loadFromJSON", p.pos(lfj.Pos()), "the metadata file is never read", nil)
+	}
 	// (b) publication after validation
 	r.Rule("E5-PUBLISH", "representation and MPD registered only after every load-time check; failed consolidation deletes the asset", 5)
 	ffL := factsOf(load)
